@@ -617,6 +617,7 @@ func (fv *FV) run() {
 		}
 		ast.Inspect(u.Decl.Body, walk)
 	}
+	fv.stableClosure()
 	for _, key := range fv.coverOrd {
 		cl := fv.coverCl[key]
 		fv.obls = append(fv.obls, &Obligation{Name: u.Name() + "#cover:" + cl.Label, Kind: "cover", Func: u.Name(), Pos: fv.posStr(u.Decl.Pos()),
@@ -697,6 +698,11 @@ func (fv *FV) checkExit(ex *Exit, k int) {
 		t := fv.specTermO(ex.env, cl, &specCtx{old: fv.entry, bind: bind, results: ex.results, preAlloc: fv.entry.alloc})
 		fv.obligeNamed(ex.env, "post", fmt.Sprintf("post:%s@return%d", cl.Label, k+1), at,
 			fmt.Sprintf("postcondition %q at return on line %d", cl.Text, line), t)
+	}
+	for _, cl := range u.C.Stable {
+		t := fv.specTermO(ex.env, cl, &specCtx{old: fv.entry, bind: bind, results: ex.results, preAlloc: fv.entry.alloc})
+		fv.obligeNamed(ex.env, "post", fmt.Sprintf("post:%s@return%d", cl.Label, k+1), at,
+			fmt.Sprintf("stable clause %q at return on line %d", cl.Text, line), t)
 	}
 	for _, cl := range u.C.EnsuresLocal {
 		fv.notePremise(ex.env, cl, &specCtx{old: fv.entry, bind: bind, results: ex.results, preAlloc: fv.entry.alloc, lenient: true})
